@@ -27,14 +27,16 @@ CONSTANTS MaxLen,      \* input strings have at most MaxLen classes
 (* ---- the input space ---- *)
 \* L ASCII letter, D digit, S space, P punctuation, U valid 2-byte char (lead+continuation),
 \* C lone continuation byte, F the byte 0xFF, J 3-byte CJK char, M combining mark (2 bytes),
-\* Z zero-width non-joiner (3 bytes)
-Classes == {"L", "D", "S", "P", "U", "C", "F", "J", "M", "Z"}
-ClassLen(c) == CASE c \in {"L", "D", "S", "P", "C", "F"} -> 1
-                 [] c \in {"U", "M"} -> 2
+\* Z zero-width non-joiner (3 bytes); and two more shapes of invalid UTF-8 (added after a seeded
+\* input showed they behave differently from C and F): H a lone lead byte (0xC3), T a 3-byte
+\* character cut after its second byte (0xE4 0xB8)
+Classes == {"L", "D", "S", "P", "U", "C", "F", "J", "M", "Z", "H", "T"}
+ClassLen(c) == CASE c \in {"L", "D", "S", "P", "C", "F", "H"} -> 1
+                 [] c \in {"U", "M", "T"} -> 2
                  [] c \in {"J", "Z"} -> 3
 RECURSIVE ByteLen(_)
 ByteLen(s) == IF s = <<>> THEN 0 ELSE ClassLen(Head(s)) + ByteLen(Tail(s))
-ValidUTF8(s) == \A i \in 1..Len(s) : s[i] \notin {"C", "F"}
+ValidUTF8(s) == \A i \in 1..Len(s) : s[i] \notin {"C", "F", "H", "T"}
 
 (* ---- the contract, declaratively ---- *)
 \* a token is a record [s, e, p]
